@@ -238,7 +238,14 @@ impl BlockData {
         }
 
         match self.last_slice {
-            None if is_last => self.mark_last_slice(slice_index),
+            None if is_last => {
+                // slices stored beyond the one now declared last contradict it,
+                // just like a slice beyond an already known last slice does
+                if self.shreds.keys().any(|&ind| ind > slice_index) {
+                    return Err(AddShredError::Equivocation);
+                }
+                self.mark_last_slice(slice_index);
+            }
             None => {}
             Some(l) => {
                 let consistent = (slice_index < l && !is_last) || (slice_index == l && is_last);
